@@ -29,3 +29,10 @@ Definition prow_diag (tab : list N) (r : int * int * int) : list (N * N * N * bo
   let '(a, b, re) := r in
   let '(i, e) := prow_parts tab r in
   if i && e then [] else [(pi2n a, pi2n b, pi2n re, i, e, entails (unpack tab a) (unpack tab b))].
+
+(* primitive constructors: (MAX, k, n, ok) and (n, AbsLockTime ok, RelLockTime ok) *)
+Definition pthr_ok (r : int * int * int * int) : bool :=
+  let '(m, k, n, ok) := r in Bool.eqb (threshold_new (pi2n m) (pi2n k) (pi2n n)) (Uint63.eqb ok 1).
+Definition plock_ok (r : int * int * int) : bool :=
+  let '(n, a, rl) := r in
+  Bool.eqb (abs_lock_from_consensus (pi2n n)) (Uint63.eqb a 1) && Bool.eqb (rel_lock_from_consensus (pi2n n)) (Uint63.eqb rl 1).
